@@ -199,6 +199,9 @@ func TestC24(t *testing.T) {
 		cas.Audio = rapid.Bool().Draw(rt, "audio")
 		cas.Frames = rapid.IntRange(1, c.Env.Pick(40, 240)).Draw(rt, "frames")
 		cas.Inputs = c24GenInputs(rt, cas.Frames)
+		if cas.DebugLCD = rapid.IntRange(0, 4).Draw(rt, "debug-lcd") == 0; cas.DebugLCD {
+			c.Class("configured-with-the-lcd-debug-option", 1)
+		}
 		info, sig, err := c24Run(cas, true)
 		if cas.Video {
 			class += "-video"
